@@ -36,7 +36,8 @@ SCRIPTS = {
     "wait": "f_wait", "pid": "Skip",
 }
 # the same queries on the Process object of the current entry (process_iter)
-ESCRIPTS = {"name": "(name_of Any FStatE FCmdlineE)", "ppid": "(ppid_of Any FStatE)", "status": "(status_of Any FStatE)"}
+ESCRIPTS = {"name": "(name_of Any FStatE FCmdlineE)", "ppid": "(ppid_of Any FStatE)", "status": "(status_of Any FStatE)",
+            "terminal": "(terminal_of Any FStatE)"}      # terminal: with a memoised terminal map only (case flag warm)
 ITERS = (["name", "ppid"], ["status", "ppid", "name"])
 # calls on an object with a history (nothing assumed about _gone / _pid_reused; the pid may have been recycled)
 HSCRIPTS = {"is_running": "h_is_running", "parent": "h_parent", "parents": "h_parents", "children": "h_children",
@@ -61,7 +62,8 @@ RULE = ("every Linux Process query reachable through psutil.Process (all of psut
         "parent, parents, children, children(recursive), as_dict() in full and for attribute groups sharing a oneshot cache, "
         "oneshot() blocks (first exception leaves / every call guarded), process_iter(attrs)); live native cases (a real child at every nice value "
         "-20..19 queried through the scratch-built C extension after a chosen failing call in the same thread); the "
-        "fake-kernel cases: x base kind {live with "
+        "fake-kernel cases (terminal() also with a STALE memoised terminal map and ENOENT/ENOTDIR on accesses outside "
+        "procfs up to 3 positions beyond the model's last access): x base kind {live with "
         "'(deleted)' links and mappings, kernel thread, zombie, live with racing descriptor/thread/smaps_rollup} x "
         "EVERY access index k of the call -- procfs accesses, per-process system calls and the accesses outside procfs "
         "(os.stat of link targets, of '(deleted)' paths of exe/cwd/fd links and smaps mappings, isfile/access of "
@@ -102,10 +104,10 @@ def layout_term():
     pids = sorted([W.PID, W.PPID, W.CHILD, W.CHILD2, W.OTHER, W.GRANDCHILD])
     kids = [(W.PID, [W.CHILD, W.CHILD2]), (W.CHILD, [W.GRANDCHILD]), (W.PPID, [W.OTHER, W.PID])]
     kids_t = "[" + "; ".join("(%s, %s)" % (_g_str(p), _g_strs([str(c) for c in cs])) for p, cs in kids) + "]"
-    return ("(Build_layout %s %s %s %s %s %s %s %s %s %s %s %s)" % (
+    return ("(Build_layout %s %s %s %s %s %s %s %s %s %s %s %s %s)" % (
         _g_str(W.PID), _g_str(W.PPID), fds, _g_strs(W.TASKS), _g_strs([str(p) for p in pids]),
         kids_t, _g_strs([str(W.CHILD2)]), _g_str(W.RACE_FD), _g_str(W.RACE_TASK),
-        _g_str(W.DEL_FD), _g_strs(W.MAPS_DEL), _g_strs(W.DEVS)))
+        _g_str(W.DEL_FD), _g_strs(W.MAPS_DEL), _g_strs(W.DEVS), _g_str(W.GONE_DEV)))
 
 
 LAYOUT = layout_term()
@@ -129,7 +131,22 @@ def script_of(m, order=None):
     return None
 
 
+WARM = {"terminal": "i_terminal_warm", "as_dict:terminal": "(as_dict [i_terminal_warm])"}
+
+
 def coq_term(case):
+    if case.get("nx"):
+        return "JL []"                          # ENOENT / ENOTDIR outside procfs: property oracle only
+    if case.get("warm"):
+        sc = WARM.get(case["m"])
+        if case["m"].startswith("iter:") and case.get("ord"):
+            sc = "(f_iter [%s])" % "; ".join(ESCRIPTS[n] for n in case["ord"])
+        if sc is None:
+            return "JL []"
+        v = "None" if case.get("v") is None else "(Some %d%%nat)" % case["v"]
+        den = "[" + "; ".join("%d%%nat" % k for k, _ in case.get("d", [])) + "]"
+        return "run_case %s %s %d%%nat %s %s %s [] true true false" % (LAYOUT, sc, KIND_NO[case["base"]], v,
+                                                                      "true" if case.get("h") else "false", den)
     if case.get("kind") == "native":
         from props import _c03_native as N
         return "run_nice (%d) (%d)" % (N.PRIOR_ERRNO[case["prior"]], case["nice"])
@@ -242,8 +259,45 @@ def gen_cases(rng, tier):
             # the alive, unrecycled lowest-pid object: parent() / parents() answer None / []
             cases_hist.append({"kind": "one", "cls": "HR", "base": b, "m": "parent", "v": None, "d": [], "low": low,
                                "then": ["parents"], "nsp": []})
+    # terminal() and the device nodes outside procfs: with a STALE memoised terminal map (warm: map memoised, then a new
+    # pty node appears) the call may touch nothing but /proc/<pid>/stat; every fault at every access, and ENOENT /
+    # ENOTDIR at every position up to 3 beyond the last access the model knows (a new unguarded /dev access would sit there)
+    import errno as _E
+    (worder,), _ = _set_order([["terminal", "ppid"]])
+    cases_tty = []
+    for b in W.KINDS:
+        for m, o, n in (("terminal", None, 2), ("as_dict:terminal", None, 2), ("iter:terminal,ppid", worder, None)):
+            base_c = {"kind": "one", "base": b, "m": m, "warm": True, "v": None, "d": []}
+            if o:
+                base_c["ord"] = o
+            cases_tty.append(dict(base_c, cls="dry"))
+            if n is None:
+                if tier == "quick" and b != "live":
+                    continue
+                n = 8                     # process_iter: the faults of the first entries
+            for k in range(n):
+                cases_tty.append(dict(base_c, cls="V", v=k))
+                cases_tty.append(dict(base_c, cls="D-EACCES", d=[[k, "EACCES"]]))
+                cases_tty.append(dict(base_c, cls="VH", v=k, h=True))
+            for k in range(n + 3):
+                for e in ("ENOENT", "ENOTDIR"):
+                    cases_tty.append(dict(base_c, cls="NX-" + e, nx=[[k, getattr(_E, e)]]))
+        for k in range(8):                # the cold scan of /dev: a node unlinked under it (ENOENT) is tolerated
+            cases_tty.append({"kind": "one", "cls": "NX-ENOENT", "base": b, "m": "terminal", "v": None, "d": [],
+                              "nx": [[k, _E.ENOENT]]})
     if tier == "search":
-        return cases_native + cases_hist
+        # a broken correspondence is turned into a concrete fault position: every method, fault positions up to
+        # access 13 (beyond what the model knows for most calls), ENOENT outside procfs included
+        extra = []
+        for m in W.METHODS:
+            if m in ("as_dict",):
+                continue
+            for k in range(14):
+                for cls, kw in (("V", {"v": k}), ("D-EACCES", {"d": [[k, "EACCES"]]}), ("NX-ENOENT", {"nx": [[k, _E.ENOENT]]})):
+                    extra.append(dict({"kind": "one", "cls": "S-" + cls, "base": "live", "m": m, "v": None, "d": [], "nx": []}, **kw))
+                    if m == "terminal":
+                        extra.append(dict(extra[-1], warm=True))
+        return cases_native + cases_hist + cases_tty + extra
     ms = method_names()
     FULL_AS_DICT[0] = next(((m, o) for m, o in ms if m.startswith("as_dict:") and o and len(o) > 20), None)
     pairs = [(b, m, o) for b in W.KINDS for m, o in ms]
@@ -320,7 +374,7 @@ def gen_cases(rng, tier):
                 for cls, v, d in (("V", k, []), ("D-EACCES", None, [[k, "EACCES"]])):
                     mk(cls, b, m, None, v, d)
                     cases[-1]["low"] = True
-    return cases_native + cases_hist + cases
+    return cases_native + cases_hist + cases_tty + cases
 
 
 # ------------------------------------------------------------------ implementation side
@@ -369,7 +423,8 @@ def impl_run(case, coq, env):
                 return T("Skip", "as_dict attribute order differs from the one the case was generated for")
     r = W.run_case(env["work"], case["base"], m, vanish=case.get("v"), deny=deny, sticky=True,
                    ovanish={p: k for p, k in case.get("ov", [])}, half=bool(case.get("h")), then=case.get("then"),
-                   low=bool(case.get("low")), reuse=bool(case.get("reuse")))
+                   low=bool(case.get("low")), reuse=bool(case.get("reuse")), warm=bool(case.get("warm")),
+                   nx={k: e for k, e in case.get("nx") or []})
     if case.get("then") is not None:
         return [[_canon_out(o) for o in r["outs"]], [T("%s|%s" % (k, p)) for k, p in r["log"]], bool(r["gone"]), []]
     bad_after = []
@@ -477,6 +532,10 @@ def _sched(case):
         s.append("%s at access %d" % ("half-removed (entries below /proc/<pid> gone)" if case.get("h") else "vanish", case["v"]))
     for p, k in case.get("ov") or []:
         s.append("pid %s vanishes at access %d" % (p, k))
+    for k, e in case.get("nx") or []:
+        s.append("%s at access %d (if it is outside procfs)" % ({2: "ENOENT", 20: "ENOTDIR"}.get(e, e), k))
+    if case.get("warm"):
+        s.append("terminal map memoised before a new pty appeared")
     return ", ".join(s) or "no fault"
 
 
@@ -489,6 +548,7 @@ def nontrivial(case, coq, impl):
     if case.get("then") is not None:
         return True
     ks = [k for k, _ in case.get("d") or []] + ([case["v"]] if case.get("v") is not None else []) \
+        + [k for k, _ in case.get("nx") or []] \
         + [k for _, k in case.get("ov") or []]
     return bool(ks) and min(ks) < n
 
